@@ -151,6 +151,11 @@ def run_check(pid, tier="quick", seed=0, replay=None):
         return 0
 
     # ---- streams
+    rdir = os.path.join(core.ROOT, "evidence", "replay")
+    if os.path.isdir(rdir):          # replays of earlier runs of this property are stale now
+        for fn in os.listdir(rdir):
+            if fn.startswith(pid + "-"):
+                os.remove(os.path.join(rdir, fn))
     streams = prop.streams(tier, rng)
     total = 0
     distinct = set()
